@@ -174,6 +174,26 @@ func c19RunID(ctx *Ctx, c c19IDCase) {
 					fail("parse(format(absolute)) differs", fmt.Sprintf("%s → identity %s base %q uri %q", abs, sameIdentity(bi, c.Type, c.ID, wantV), back.ServiceBaseURL(), back.URIString()))
 					return
 				}
+				// re-basing an absolute reference: onto a longer base, onto one that differs only in the
+				// case of a path letter (paths are case-sensitive), and back to relative
+				for _, b2 := range []string{c.Base + "/v2", c19FlipPathCase(c.Base), c.Base} {
+					rb, err := back.WithServiceBaseURL(b2)
+					if err != nil {
+						if b2 == c.Base+"/v2" || b2 == c.Base {
+							fail("WithServiceBaseURL rejects a valid base when re-basing", b2+": "+err.Error())
+							return
+						}
+						continue
+					}
+					if rb.ServiceBaseURL() != b2 || rb.URIString() != b2+"/"+s {
+						fail("re-basing an absolute reference does not take the new base", fmt.Sprintf("%q → %q: base %q uri %q", abs, b2, rb.ServiceBaseURL(), rb.URIString()))
+						return
+					}
+				}
+				if rel0, err := back.WithServiceBaseURL(""); err == nil && (rel0.ServiceBaseURL() != "" || rel0.URIString() != s) {
+					fail("clearing the base does not give the relative reference", fmt.Sprintf("%q → %q", abs, rel0.URIString()))
+					return
+				}
 				if ia, err := reference.IdentityFromAbsoluteURL(abs); err != nil || sameIdentity(ia, c.Type, c.ID, wantV) != "" {
 					fail("IdentityFromAbsoluteURL differs", fmt.Sprintf("%s: %v", abs, err))
 					return
@@ -516,4 +536,30 @@ func FuzzC19(f *testing.F) {
 		}
 		fuzzCase(t, "C19", "strings", c19StrCase{S: s}, c19RunStr)
 	})
+}
+
+// c19FlipPathCase changes the case of the last letter of the base URL's path (not of the
+// scheme or host); the base itself when it has no path letter.
+func c19FlipPathCase(base string) string {
+	i := strings.Index(base, "://")
+	if i < 0 {
+		return base
+	}
+	j := strings.Index(base[i+3:], "/")
+	if j < 0 {
+		return base
+	}
+	start := i + 3 + j
+	b := []byte(base)
+	for k := len(b) - 1; k > start; k-- {
+		switch {
+		case b[k] >= 'a' && b[k] <= 'z':
+			b[k] -= 32
+			return string(b)
+		case b[k] >= 'A' && b[k] <= 'Z':
+			b[k] += 32
+			return string(b)
+		}
+	}
+	return base
 }
